@@ -202,7 +202,7 @@ func runC11(c *Ctx) {
 		}
 	}
 	c.Meta(map[string]interface{}{
-		"rule": "for every base database (histories listed in evidence; closed, so async writes are on disk) and configuration: every assignment of {intact, file removed, index entry removed from object-ids and every field index by editing schema.json as JSON, both} to each stored object x {0,1,2} extra well-formed object files with fresh ids x {schema present, removed} (4^n*6 cases per base, exhaustive). Oracle: first load / Control report corruption iff indexed ids != file ids (no false positive on the healthy case); after (Create if needed and) Repair: Control = nil, index agrees with files decoded without sod code through every indexed field, every object file byte-identical (none modified, none deleted). Non-trivial = cases with at least one fault.",
+		"rule":    "for every base database (histories listed in evidence; closed, so async writes are on disk) and configuration: every assignment of {intact, file removed, index entry removed from object-ids and every field index by editing schema.json as JSON, both} to each stored object x {0,1,2} extra well-formed object files with fresh ids x {schema present, removed} (4^n*6 cases per base, exhaustive). Oracle: first load / Control report corruption iff indexed ids != file ids (no false positive on the healthy case); after (Create if needed and) Repair: Control = nil, index agrees with files decoded without sod code through every indexed field, every object file byte-identical (none modified, none deleted). Non-trivial = cases with at least one fault.",
 		"configs": cfgs, "bases": len(bases),
 	})
 }
